@@ -76,6 +76,17 @@ func newReplayer(p *sym.Program) (*replayer, error) {
 		}
 		return nil
 	})
+	// generated overlay files (not on disk under harness/): write them to the scratch dir
+	for vpath, content := range p.Overlay {
+		if _, ok := rep[vpath]; ok {
+			continue
+		}
+		gen := filepath.Join(dir, "gen_"+strings.ReplaceAll(strings.TrimPrefix(vpath, repoDir()+"/"), "/", "_"))
+		if err := os.WriteFile(gen, content, 0o644); err != nil {
+			return nil, err
+		}
+		rep[vpath] = gen
+	}
 	// one generated test file per package with harnesses
 	byPkg := map[string][]string{}
 	for full := range p.Harness {
